@@ -364,6 +364,15 @@ func ops() []op {
 			v := &S1{A: i, B: "b", C: []int{i}, D: map[string]*S2{"k": {X: 1, Y: &S1{A: 2}}}}
 			return oj.JSON(v, sorted) + sen.String(v, sorted) + pretty.JSON(v, sorted)
 		}},
+		{"oj.Parse(NumConvString)", func(w *worker, i int) string {
+			// an option of one call must not stay with the pooled parser
+			v, err := oj.Parse([]byte(srcs[i]), ojg.NumConvString)
+			return fmt.Sprint(showS(v), err)
+		}},
+		{"oj.Load(big number)", func(w *worker, i int) string {
+			v, err := oj.Load(strings.NewReader(fmt.Sprintf(`{"id":123456789012345678901234567890,"n":%d,"f":1e400}`, i)))
+			return fmt.Sprintf("%T %v %v", v.(map[string]any)["id"], showS(v), err)
+		}},
 		{"sen.Parse(pending +)", func(w *worker, i int) string {
 			// rejected while a string concatenation is pending: the pooled parser goes back with that state
 			_, err := sen.Parse([]byte([]string{`["abc" + 1]`, `{msg: "total: " + count}`, `["abc" +`}[i%3]))
